@@ -45,7 +45,34 @@ class StmtMixin:
         m = getattr(self, 'ex_' + type(node).__name__, None)
         if m is None:
             raise Unsupported(f"statement {type(node).__name__} at line {node.lineno}")
+        c = fr.contract
+        if c is not None and (c.ghost_after or c.ghost_before) and isinstance(node, (ast.Assign, ast.Expr, ast.AugAssign,
+                                                                                   ast.AnnAssign, ast.Return)):
+            text = ast.unparse(node)
+            for key in c.ghost_before:
+                if text.startswith(key):
+                    self.run_ghost(c.ghost_before[key], fr)
+                    self.ghost_hits.add(key)
+            for key in c.ghost_after:
+                if text.startswith(key):
+                    r = m(node, fr)
+                    self.run_ghost(c.ghost_after[key], fr)
+                    self.ghost_hits.add(key)
+                    return r
         return m(node, fr)
+
+    def run_ghost(self, stmts, fr):
+        for g in stmts:
+            key = ('ghost', g)
+            if key not in self._spec_cache:
+                self._spec_cache[key] = ast.parse(g.strip()).body
+            for st in self._spec_cache[key]:
+                saved = fr.contract
+                fr.contract = None      # ghost statements are not themselves instrumented
+                try:
+                    self.ex(st, fr)
+                finally:
+                    fr.contract = saved
 
     def ex_Pass(self, node, fr):
         pass
@@ -469,6 +496,8 @@ class StmtMixin:
         # 2. havoc
         body_nodes = list(node.body)
         mod_vars = assigned_names(body_nodes)
+        for g in spec.ghost_pre:
+            mod_vars |= assigned_names(ast.parse(g.strip()).body)
         if kind == 'for':
             mod_vars |= assigned_names([node.target])
             mod_vars.add(idx_name)
@@ -546,6 +575,8 @@ class StmtMixin:
             self.assign(node.target, seq_get(src, iv), fr)
             self._ref_facts(fr.vars.get(node.target.id) if isinstance(node.target, ast.Name) else None)
         try:
+            if spec.ghost_pre:
+                self.run_ghost(spec.ghost_pre, fr)
             self.ex_block(node.body, fr)
         except BreakSig:
             return          # continue after the loop with the current state
